@@ -71,6 +71,7 @@ class Ctx:
         if n < floor:
             self.fail(rule, "anchor-lost:%s" % what, "", "found %d instances of %s, floor is %d" % (n, what, floor))
             return False
+        self.ok(rule, "floor:%s" % what, "", "found %d instances of %s (floor %d)" % (n, what, floor))
         return True
 
     def anchor(self, rule, fn, what):
@@ -83,6 +84,7 @@ class Ctx:
         if r is None or r == []:
             self.fail(rule, "anchor-lost:%s" % what, "", "anchor %s not found" % what)
             return None
+        self.ok(rule, "floor:%s" % what, "", "anchor found")
         return r
 
     def body_or_fail(self, rule, pred, what=None):
@@ -90,6 +92,7 @@ class Ctx:
         if len(r) != 1:
             self.fail(rule, "anchor-lost:%s" % (what or pred), "", "%r matched %d bodies" % (pred, len(r)))
             return None
+        self.ok(rule, "floor:%s" % (what or pred), "", "anchor found")
         self.touch(r[0])
         return r[0]
 
